@@ -96,6 +96,21 @@ impl Prop for C01 {
         let n = entries.len();
         let bytes = crate::common::write_file(&spec.conf, &entries)?;
 
+        // the same entries through `build(&mut Vec)` + `finish()` (the other way to end a writer)
+        let mut sink = Vec::new();
+        match crate::common::catch(|| -> std::io::Result<()> {
+            let mut w = spec.conf.builder().build(&mut sink);
+            for (k, v) in &entries {
+                w.insert(k, v)?;
+            }
+            w.finish()
+        }) {
+            Ok(Ok(())) => {}
+            Ok(Err(e)) => fail!("c01:finish:err", "finish() failed on valid input: {e}"),
+            Err(p) => fail!("c01:finish:panic", "finish() panicked on valid input: {p}"),
+        }
+        ensure!(sink == bytes, "c01:finish-differs", "finish() and into_inner() produced different files ({})", spec.conf.label());
+
         let reader = rd::open(&bytes)?;
         ensure!(reader.len() == n as u64, "c01:len", "len() = {} after {} inserts ({})", reader.len(), n, spec.conf.label());
         ensure!(reader.is_empty() == (n == 0), "c01:is_empty", "is_empty() inconsistent with {} inserts", n);
